@@ -11,7 +11,7 @@ CONSTANTS
     MaxFrames = 4
     MaxTasks = 0
     MaxDepth = 3
-    Panics = FALSE
+    Panics = TRUE
     MaxSpans = 3
     IncomingKinds <- MC_IncAll
     WithLazy = FALSE
